@@ -236,6 +236,12 @@ class Rat:
     def item(self):
         return self
 
+    def reshape(self, *shape):
+        import numpy as _np
+        a = _np.empty(1, dtype=object)
+        a[0] = self
+        return a.reshape(*shape)
+
     def __bool__(self):
         b = compare0(self, "!=")
         return bool(b)
@@ -288,7 +294,7 @@ class Rat:
                 return Rat(Fraction(0), (), self.g)
             return o
         if o.c == 0:
-            return UndefinedValue("division by exact zero")
+            return _div_by_zero(self)
         return self * o.inv()
 
     def __rtruediv__(self, o):
@@ -298,7 +304,7 @@ class Rat:
         if isinstance(o, float):
             return _inf_mul(self.inv(), o)
         if self.c == 0:
-            return UndefinedValue("division by exact zero")
+            return _div_by_zero(o)
         return o * self.inv()
 
     def __pow__(self, n):
@@ -419,6 +425,21 @@ class UndefinedValue:
         return True
 
     __hash__ = object.__hash__
+
+
+def _div_by_zero(num):
+    """IEEE semantics of x / 0: +-inf for x != 0 (what NumPy computes, with a warning), NaN (undefined) for 0 / 0"""
+    if isinstance(num, float):
+        return num / 1.0 if math.isnan(num) else (float("inf") if num > 0 else float("-inf") if num < 0 else UndefinedValue("0/0"))
+    if not num.f:
+        if num.c == 0:
+            return UndefinedValue("0/0")
+        return float("inf") if num.c > 0 else float("-inf")
+    if bool(compare0(num, ">")):
+        return float("inf")
+    if bool(compare0(num, "<")):
+        return float("-inf")
+    return UndefinedValue("0/0")
 
 
 def _inf_mul(r, o):
